@@ -1297,3 +1297,103 @@ axiom('regexp', 'def', 'relabel-def', ForAll([_R, _lv, _k2], Select(relabel(_R, 
 axiom('regexp', 'lemma', 'relabel-store', ForAll([_R, _lv, _k2, _rr], relabel(Store(_R, _k2, True), Store(_lv, _k2, _rr)) == Store(relabel(_R, _lv), _k2, _rr)))
 @spec('hint_index_name')
 def s_hint_index_name(ev, h, i): return SV(ATOM, hint_index_name(h.z, i.z))
+
+
+# ====================================================================== generalised NFAs: acceptance along regexp-labelled edges (C06, theory gnfa)
+axiom('wordx', 'lemma', 'app-assoc', ForAll([_u, _v, _w], app(app(_u, _v), _w) == app(_u, app(_v, _w))))
+XW = TUP(ATOM, WORD); XWs = sort_of(XW); mkXW = parts(XW)[1]
+GRel = ArraySort(XWs, BoolSort())
+GAcc = Function('GAcc', LabA, SetA, Atom, Atom, Word, BoolSort())      # (labels, states, q_accept, x, w): w leads from x to q_accept (least fixpoint)
+_Lb = Const('Lb', LabA)
+axiom('gnfa', 'lfp', 'GAcc-base', ForAll([_Lb, _Qs, _qa], GAcc(_Lb, _Qs, _qa, _qa, Word.nil)))
+axiom('gnfa', 'lfp', 'GAcc-step', ForAll([_Lb, _Qs, _qa, _x, _y, _u, _v], Implies(And(Select(_Qs, _y), lmem(_u, Lof(Select(_Lb, mkKey2(_x, _y)))), GAcc(_Lb, _Qs, _qa, _y, _v)),
+                                                                               GAcc(_Lb, _Qs, _qa, _x, app(_u, _v))),
+                                   patterns=[z3.MultiPattern(lmem(_u, Lof(Select(_Lb, mkKey2(_x, _y)))), GAcc(_Lb, _Qs, _qa, _y, _v))]))
+
+
+def GAcc_least(Lb, Q, qa, Tt):
+    """leastness instance: a relation Tt on (state, word) closed under the two rules contains GAcc"""
+    x, y = fresh_z('x', Atom), fresh_z('y', Atom); u, v, w = fresh_z('u', Word), fresh_z('v', Word), fresh_z('w', Word)
+    return Implies(And(Select(Tt, mkXW(qa, Word.nil)),
+                       ForAll([x, y, u, v], Implies(And(Select(Q, y), lmem(u, Lof(Select(Lb, mkKey2(x, y)))), Select(Tt, mkXW(y, v))), Select(Tt, mkXW(x, app(u, v)))))),
+                   ForAll([x, w], Implies(GAcc(Lb, Q, qa, x, w), Select(Tt, mkXW(x, w)))))
+
+
+# bridges between the take/drop form of the language algebra and concatenation of words
+axiom('gnfa', 'lemma', 'mem-cat-app', ForAll([_u, _v, _X, _Y], Implies(And(lmem(_u, _X), lmem(_v, _Y)), lmem(app(_u, _v), lcat(_X, _Y)))))
+axiom('gnfa', 'lemma', 'mem-cat-split', ForAll([_w, _X, _Y], Implies(lmem(_w, lcat(_X, _Y)), Exists([_u, _v], And(_w == app(_u, _v), lmem(_u, _X), lmem(_v, _Y))))))
+axiom('gnfa', 'lemma', 'star-nil', ForAll([_X], lmem(Word.nil, lstar(_X))))
+axiom('gnfa', 'lemma', 'star-cons', ForAll([_u, _v, _X], Implies(And(lmem(_u, _X), lmem(_v, lstar(_X))), lmem(app(_u, _v), lstar(_X)))))
+_r0 = Const('r0', Atom)
+axiom('gnfa', 'lemma', 'GAcc-star', ForAll([_Lb, _Qs, _qa, _r0, _u, _v], Implies(And(Select(_Qs, _r0), lmem(_u, lstar(Lof(Select(_Lb, mkKey2(_r0, _r0))))), GAcc(_Lb, _Qs, _qa, _r0, _v)),
+                                                                              GAcc(_Lb, _Qs, _qa, _r0, app(_u, _v)))))
+
+
+def rip_pred(Lb, Lb2, Q, Q2, r, qs, qa):
+    """Lb2 / Q2 is the GNFA Lb / Q after ripping state r: the label between two remaining states i (not accept) and j (not start) denotes
+    L(i,r) L(r,r)* L(r,j) + L(i,j); all other labels are unchanged; no edge leaves the accept state or enters the start state"""
+    i, j, x, y = fresh_z('i', Atom), fresh_z('j', Atom), fresh_z('x', Atom), fresh_z('y', Atom)
+    lab = lambda L_, a, b: Lof(Select(L_, mkKey2(a, b)))
+    upd = lambda a, b: And(Select(Q2, a), a != qa, Select(Q2, b), b != qs)
+    return And(Select(Q, r), r != qa, r != qs,
+               ForAll([x], Select(Q2, x) == And(Select(Q, x), x != r)),
+               ForAll([i, j], Implies(upd(i, j), lab(Lb2, i, j) == lplus(lcat(lab(Lb, i, r), lcat(lstar(lab(Lb, r, r)), lab(Lb, r, j))), lab(Lb, i, j)))),
+               ForAll([x, y], Implies(Not(upd(x, y)), lab(Lb2, x, y) == lab(Lb, x, y))),
+               ForAll([y], lab(Lb, qa, y) == lzero), ForAll([x], lab(Lb, x, qs) == lzero))
+
+
+rip_b = Function('rip', LabA, LabA, SetA, SetA, Atom, Atom, Atom, BoolSort())
+_Lb2 = Const('Lb2', LabA); _Q2s = Const('Q2s', SetA); _qs = Const('qs', Atom)
+axiom('gnfa', 'def', 'rip-def', ForAll([_Lb, _Lb2, _Qs, _Q2s, _r0, _qs, _qa], rip_b(_Lb, _Lb2, _Qs, _Q2s, _r0, _qs, _qa) == rip_pred(_Lb, _Lb2, _Qs, _Q2s, _r0, _qs, _qa)))
+axiom('gnfa', 'lemma', 'rip-sim', ForAll([_Lb, _Lb2, _Qs, _Q2s, _r0, _qs, _qa, _x, _w], Implies(And(rip_b(_Lb, _Lb2, _Qs, _Q2s, _r0, _qs, _qa), Select(_Q2s, _x)),
+      GAcc(_Lb2, _Q2s, _qa, _x, _w) == GAcc(_Lb, _Qs, _qa, _x, _w))))
+
+
+LABELS = Ty('labels')        # spec only: the total label function of a GNFA (missing entries are Zero)
+@spec('glabels')
+def s_glabels(ev, G): return SV(LABELS, relabel(map_dom(rec_get(G, 'delta')), map_val(rec_get(G, 'delta'))))
+@spec('lab')
+def s_lab(ev, Ls, x, y): return SV(Ty('lang'), Lof(Select(Ls.z, mkKey2(x.z, y.z))))
+@spec('lab_re')
+def s_lab_re(ev, Ls, x, y): return SV(REGEXP, Select(Ls.z, mkKey2(x.z, y.z)))
+@spec('lplus')
+def s_lplus(ev, X, Y): return SV(Ty('lang'), lplus(X.z, Y.z))
+@spec('lcat')
+def s_lcat(ev, X, Y): return SV(Ty('lang'), lcat(X.z, Y.z))
+@spec('lzero')
+def s_lzero(ev): return SV(Ty('lang'), lzero)
+@spec('gacc')
+def s_gacc(ev, Ls, Q, qa, x, w): return SV(BOOL, GAcc(Ls.z, Q.z, qa.z, x.z, w.z))
+@spec('rip')
+def s_rip(ev, L0, L1, Q0, Q1, r, qs, qa): return SV(BOOL, rip_b(L0.z, L1.z, Q0.z, Q1.z, r.z, qs.z, qa.z))
+axiom('gnfa', 'lemma', 'gnfa-two-state', ForAll([_Lb, _Qs, _qs, _qa, _w], Implies(And(_qs != _qa, ForAll([_x], Select(_Qs, _x) == Or(_x == _qs, _x == _qa)),
+      ForAll([_y], Lof(Select(_Lb, mkKey2(_qa, _y))) == lzero), ForAll([_x], Lof(Select(_Lb, mkKey2(_x, _qs))) == lzero)),
+      GAcc(_Lb, _Qs, _qa, _qs, _w) == lmem(_w, Lof(Select(_Lb, mkKey2(_qs, _qa)))))))
+
+
+# ---------------------------------------------------------------------- the GNFA of a DFA accepts the language of the DFA (theory gnfadfa)
+axiom('wordx', 'lemma', 'over-app', ForAll([_S, _u, _v], over(_S, app(_u, _v)) == And(over(_S, _u), over(_S, _v))))
+axiom('wordx', 'lemma', 'word-uncons', ForAll([_w], Implies(_w != Word.nil, Exists([_a, _v], And(_w == cons(_a, _v), wlen(_v) == wlen(_w) - 1)))))
+
+
+def gdfa_pred(D, Lb, Q, qs, qa):
+    """(Lb, Q, qs, qa) is the generalised NFA that dfa_to_gnfa builds from D"""
+    QD, Sg, Fz, d, q0 = rec_get(D, 'Q').z, rec_get(D, 'Sigma').z, rec_get(D, 'F').z, dfa_delta_val(D), rec_get(D, 'q0').z
+    x, y, a = fresh_z('x', Atom), fresh_z('y', Atom), fresh_z('a', Atom); w = fresh_z('w', Word)
+    lab = lambda p_, q_: Select(Lb, mkKey2(p_, q_))
+    edge = lambda p_, q_: Or(And(p_ == qs, q_ == q0), And(Select(Fz, p_), q_ == qa), And(Select(QD, p_), Select(QD, q_)))
+    return And(s_dfa_wf(None, D).z, Not(Select(QD, qs)), Not(Select(QD, qa)), qs != qa,
+               ForAll([x], Select(Q, x) == Or(Select(QD, x), x == qs, x == qa)),
+               ForAll([x, y, w], Implies(And(Select(QD, x), Select(QD, y)), lmem(w, Lof(lab(x, y))) == Exists([a], And(Select(Sg, a), Select(d, mkKey2(x, a)) == y, w == Word.snoc(Word.nil, a))))),
+               lab(qs, q0) == Regexp.One, ForAll([x], Implies(Select(Fz, x), lab(x, qa) == Regexp.One)),
+               ForAll([x, y], Implies(Not(edge(x, y)), lab(x, y) == Regexp.Zero)))
+
+
+gdfa_b = Function('gnfa_of_dfa', _DFAs, LabA, SetA, Atom, Atom, BoolSort())
+axiom('gnfadfa', 'def', 'gnfa_of_dfa-def', ForAll([_D, _Lb, _Qs, _qs, _qa], gdfa_b(_D, _Lb, _Qs, _qs, _qa) == gdfa_pred(_Dsv, _Lb, _Qs, _qs, _qa)))
+axiom('gnfadfa', 'lemma', 'gnfa-of-dfa-lang', ForAll([_D, _Lb, _Qs, _qs, _qa, _w], Implies(gdfa_b(_D, _Lb, _Qs, _qs, _qa),
+      GAcc(_Lb, _Qs, _qa, _qs, _w) == And(over(rec_get(_Dsv, 'Sigma').z, _w), _acc(_Dsv, _w)))))
+
+
+@spec('gnfa_of_dfa')
+def s_gnfa_of_dfa(ev, D, Ls, Q, qs, qa): return SV(BOOL, gdfa_b(D.z, Ls.z, Q.z, qs.z, qa.z))
